@@ -249,7 +249,24 @@ fn generate_c(seed: u64, quick: bool) -> Value {
             }
         }
     }
+    // sometimes a declaration that fails comes first: one good import set and a library that
+    // exists nowhere. Whatever it did or did not bind, the declaration under test afterwards
+    // gains exactly its own bindings
+    let mut decl0 = None;
+    if rng.chance(1, 5) {
+        let mut g = GenC { rng: &mut rng, libs: &libs, fresh: 0 };
+        let d = g.rng.upto(2);
+        let good = g.term(d);
+        if algebra(&good, &libs).is_some() {
+            let missing = parse_one("(lt nowhere)").unwrap();
+            let sets = if rng.chance(2, 3) { vec![good, missing] } else { vec![missing, good] };
+            let mut v = vec![sym("import")];
+            v.extend(sets);
+            decl0 = Some(list(v).to_text());
+        }
+    }
     json!({
+        "decl0": decl0,
         // the declaration is made by a library, which passes on everything it received
         "through_library": rng.chance(1, 4),
         "decl2": decl2,
@@ -388,6 +405,19 @@ fn observe_once(case: &Value, dir: Option<std::path::PathBuf>) -> Observation {
         if delivery == "file" {
             it.program_directory = dir.clone();
         }
+        if let Some(d0) = case["decl0"].as_str() {
+            if it.eval(d0.chars()).is_ok() {
+                return Err("DECL0-OK".to_string());
+            }
+        }
+        // the names the declaration(s) under test must bind are always reported; any other
+        // name only if it is new or changed
+        let mut must: BTreeSet<String> = BTreeSet::new();
+        for t in [case["decl"].as_str(), case["decl2"].as_str()].into_iter().flatten() {
+            if let Some(b) = parse_one(t).ok().and_then(|d| declaration_bindings(&d, &libs)) {
+                must.extend(b.keys().cloned());
+            }
+        }
         // what the declaration adds: compared with the environment as it was before
         let mut before: BTreeMap<String, RValue<f32>> = BTreeMap::new();
         {
@@ -410,7 +440,7 @@ fn observe_once(case: &Value, dir: Option<std::path::PathBuf>) -> Observation {
         {
             let mut defs = it.env.iter_local_definitions();
             for (k, v) in &mut *defs {
-                if before.get(k) != Some(v) {
+                if before.get(k) != Some(v) || must.contains(k) {
                     added.push((k.clone(), v.clone()));
                 }
             }
@@ -468,7 +498,10 @@ fn execute_c(case: &Value) -> RunResult {
         return res;
     }
     let delivery = case["delivery"].as_str().unwrap_or("native").to_string();
-    res.log.push(format!("seed={} delivery={} decl={} decl2={}", case["seed"], delivery, decl_text, case["decl2"]));
+    res.log.push(format!("seed={} delivery={} decl0={} decl={} decl2={}", case["seed"], delivery, case["decl0"], decl_text, case["decl2"]));
+    if case["decl0"].is_string() {
+        res.count("probe.failing_declaration_first");
+    }
     // model: the reference module system
     let mut m = Machine::new_empty();
     for (key, exports) in &libs {
@@ -592,6 +625,8 @@ fn execute_c(case: &Value) -> RunResult {
             Err(e) => {
                 let sig = if e.starts_with("panic/") {
                     format!("C12/{}", e)
+                } else if e == "DECL0-OK" {
+                    "C12/declaration-over-a-missing-library-succeeds".to_string()
                 } else {
                     "C12/import-failed".to_string()
                 };
@@ -615,7 +650,7 @@ fn execute_c(case: &Value) -> RunResult {
     };
     let maxd = v[1..].iter().map(depth_of).max().unwrap_or(0);
     res.nontrivial = maxd >= 2 || v.len() > 2;
-    res.sched_hash = fnv64(format!("{}|{}|{}|{}", decl_text, case["decl2"], delivery, case["through_library"]).as_bytes());
+    res.sched_hash = fnv64(format!("{}|{}|{}|{}", decl_text, case["decl2"], delivery, format!("{}{}", case["through_library"], case["decl0"])).as_bytes());
     res.state_hashes.push(fnv64(format!("{:?}", expected).as_bytes()));
     res.count(&format!("delivery.{}", delivery));
     res.count(&format!("depth.{}", maxd));
